@@ -207,6 +207,12 @@ def check(prop, tier, seed, nshards):
             pend = read_pending(os.path.join(outdir, f"pending-{i}.bin"))
             hang = os.path.exists(os.path.join(outdir, f"hang-{i}.json"))
             tail = open(os.path.join(outdir, f"shard-{i}.log")).read()[-3000:]
+            if prop == "C18" and "fatal error: concurrent map" in tail:
+                # schedule-dependent: the runtime's own detector of unsynchronised map access fired
+                v = {"property": "C18", "site": "runtime", "clause": "concurrent-map-access-fatal", "shape": {"build": bname},
+                     "job": "race-log", "index": 0, "seed": seed, "tier": tier, "detail": tail[-2500:]}
+                merged["violations"].append(v); merged["violation_count"] += 1
+                continue
             if pend is None:
                 inconclusive.append(f"shard {i} ({bname}) died (exit {rc[i]}) without a pending call: {tail[-400:]}")
                 continue
@@ -396,7 +402,18 @@ def floor_bucket_prefix(prefix, minimum):
     return f
 
 
+def floor_c18_overlap(m):
+    h = (m["extra"].get("goroutine_overlap_histogram") or {})
+    tot = sum(h.values())
+    alone = h.get("max_in_flight_01", 0)
+    if tot == 0 or alone > 0.10 * tot:
+        return f"goroutines overlapped too rarely: {alone} of {tot} ran alone"
+    if (m["extra"].get("distinct_interleaving_signatures") or 0) < 10:
+        return "fewer than 10 distinct interleaving signatures observed"
+
+
 FLOORS = {
+    "C18": [floor_c18_overlap],
     "C05": [floor_bucket_prefix("original-verified-by-both/", 60)],
     "C01": [floor_ops_accept(skip=("ReadSignature#9", "ReadSignature#10"))],
     "C03": [floor_ops_accept()],
